@@ -28,6 +28,7 @@ RULE = (
     ' Also: one filter object answering for both coordinate systems and from four concurrent threads; chunk (filter, sampler) pairs req'
     'uested up front / in reverse; chunk boundaries placed on the longitudes where TOAST pixel centres lie exactly (odd multiples of W/'
     '8); a transient EMFILE inside ImageLoader.load_path while a later chunk merges (the chunk is re-run when the error is reported).'
+    ' Round 8: large boxes grazing tiles at depth 13-18 just past their outermost pixel centre.'
 )
 ASSUMPTIONS = ["astropy.wcs is the oracle for footprints", "toast_tile_get_coords is trusted here (C05)", "compiled extension as built; .pyx coherent with .c"]
 
